@@ -6,6 +6,7 @@ import RpgpProofs.Framing
 import RpgpProofs.Seipd1
 import RpgpProofs.Utf8
 import RpgpProofs.StreamFail
+import RpgpProofs.PacketIter
 /-!
 # C09 — streaming is transparent: results independent of I/O fragmentation and faults
 
@@ -164,6 +165,36 @@ theorem encryptor_second_read_fails_witness :
     let enc : Bytes → Bytes := fun b => b.map (· + 100)
     encPoll 4 8 enc [7] ⟨[], false, false⟩ [.data [1, 2], .err, .data [3]] [4, 4, 4] = [.fail, .fail, .fail] := by decide
 
+/-! ## the packet iterator over a reader that fails (`packet/many.rs`) -/
+
+/-- "an error raised by the underlying source surfaces as an error and is never converted into a
+clean, shorter result", at the place where a stream of packets is cut into packets: when the reader
+below fails — with whatever kind, `UnexpectedEof` included — while the next header is being read,
+`PacketParser::next_ref` (message reader, trailing-data check) reports an error -/
+theorem next_ref_source_error_surfaces (pre : Bytes) (eofKind : Bool)
+    (h : ∀ hd rest, parseHeader pre ≠ .ok (hd, rest)) :
+    PacketIter.nextRef pre (.failed eofKind) = .err := by
+  rw [PacketIter.nextRef_eq]; exact PacketIter.nextWith_failed_is_err pre eofKind h
+
+/-- … and so does the iterator the composed parsers (keys, signatures) are built on -/
+theorem iterator_source_error_surfaces (pre : Bytes) (eofKind : Bool)
+    (h : ∀ hd rest, parseHeader pre ≠ .ok (hd, rest)) :
+    PacketIter.nextIter pre (.failed eofKind) = .err := by
+  rw [PacketIter.nextIter_eq]; exact PacketIter.nextWith_failed_is_err pre eofKind h
+
+/-- the packets end only where the input ends -/
+theorem packets_end_only_where_the_input_ends (pre : Bytes) (t : PacketIter.Tail) :
+    (PacketIter.nextRef pre t = .done → t = .ended) ∧ (PacketIter.nextIter pre t = .done → t = .ended) := by
+  rw [PacketIter.nextRef_eq, PacketIter.nextIter_eq]
+  exact ⟨PacketIter.nextWith_done_only_at_end pre t, PacketIter.nextWith_done_only_at_end pre t⟩
+
+/-- regression witness (D4n / D4p before the repairs) -/
+theorem packet_iterator_swallowed_unexpected_eof_witness :
+    PacketIter.nextWith false [0xC2] (.failed true) = .done ∧
+    PacketIter.nextWith true [0xC2] (.failed true) = .err ∧
+    PacketIter.nextWith false [0xC2] (.failed false) = .err :=
+  PacketIter.prefix_swallows_unexpected_eof_witness
+
 /-- the CFB encryptor's buffer size used in the instantiation -/
 theorem constants : 22 < Gen.symDecBufferSize ∧ 2 ≤ Gen.normalizedReaderWindow := by decide
 
@@ -174,6 +205,9 @@ example : fillBuffer 4 [[1, 2], [3]] 3 = ([1, 2, 3], []) := by decide
 example : fillBufferEv 4 [.data [1], .err, .data [2]] 3 = none := by decide
 example : bpDrainF [] [some [1, 2], none, some [3]] [1, 1, 1, 1] = ([1, 2], some false) := by decide
 example : cfbEncBlocks 4 [9, 9] [] [7] = [[9, 9], [7]] := by decide
+example : PacketIter.nextRef [0xCB, 3, 1, 2] .ended = .hdr { newFormat := true, tag := 11, len := .fixed 3 } [1, 2] ∧
+    PacketIter.nextRef [] .ended = .done ∧ PacketIter.nextRef [0xCB] .ended = .done ∧
+    PacketIter.nextRef [0x00] .ended = .err := by decide
 example : encPoll 2 8 (fun b => b.map (· + 100)) [7] ⟨[9], false, false⟩ [.data [1, 2, 3]] [8, 8, 8, 8, 8] =
     [.bytes [9], .bytes [101, 102], .bytes [103], .bytes [7], .bytes []] := by decide
 
